@@ -43,6 +43,16 @@ def _cases(tier, seed):
     for N, M, R in [([2], [3], [1, 1]), ([2, 1], [1, 2], [1, 2, 1]), ([1, 2], [2, 1], [1, 2, 1])]:
         for sq in (True, False):
             cs.append({'scen': 'tt_norm', 's': {'N': N, 'M': M, 'R': R, 'dtype': 'float64', 'squared': sq, 'variant': 'untracked'}, 'opts': AOPTS})
+    # ---- exactly zero rank blocks (z + x, x + z with z = zeros): rank-deficient unfoldings with zero columns in the QR sweep
+    for N, R in [([2, 3], [1, 1, 1]), ([2, 2, 2], [1, 1, 1, 1])] + ([([3, 2], [1, 2, 1])] if th else []):
+        for pz in ('front', 'back'):
+            if pz == 'back' and max(R) > 1:
+                continue          # (a zero block behind a rank-2 bond: rank-deficient QR input outside the exact model)
+            for sq in (True, False):
+                if max(R) > 1 and not sq and not th:
+                    continue
+                cs.append({'scen': 'tt_norm', 's': {'N': N, 'R': R, 'dtype': 'float64', 'squared': sq, 'variant': 'untracked', 'plus_zero': pz}, 'opts': AOPTS})
+    cs.append({'scen': 'tt_norm', 's': {'N': [2, 1], 'M': [1, 2], 'R': [1, 1, 1], 'dtype': 'float64', 'squared': True, 'variant': 'untracked', 'plus_zero': 'front'}, 'opts': AOPTS})
     # ---- histories on one object: norm, set_core, norm
     for N, R, k in [([3], [1, 1], 0), ([2, 3], [1, 2, 1], 1), ([2, 3], [1, 1, 1], 1), ([2, 2, 2], [1, 1, 2, 1], 1)]:
         for sq, fsq in ((True, True), (False, False), (True, False)):
@@ -72,6 +82,13 @@ def _cases(tier, seed):
                 Nb = [Na[i] for i in axis]
                 Rb = _pick(_rank_profiles(len(Nb), [1, 2, 3] if len(Nb) <= 2 else [1, 2]), 1, rng)[0]
                 cs.append({'scen': 'tt_dot', 's': {'Na': Na, 'Ra': Ra, 'Nb': Nb, 'Rb': Rb, 'axis': list(axis), 'dtype': 'float64'}})
+    # rank-one first operand against a higher-rank second operand (and the reverse)
+    for Na, Nb, axis in [([2, 3, 4], [2, 3, 4], [0, 1, 2]), ([2, 3, 4], [3, 4], [1, 2]), ([2, 3, 4], [2, 4], [0, 2]), ([3, 2], [3, 2], [0, 1])]:
+        ra1, rb = [1] * (len(Na) + 1), [1] + [2] * (len(Nb) - 1) + [1]
+        ra2, rb1 = [1] + [2] * (len(Na) - 1) + [1], [1] * (len(Nb) + 1)
+        cs.append({'scen': 'tt_dot', 's': {'Na': Na, 'Ra': ra1, 'Nb': Nb, 'Rb': rb, 'axis': axis, 'dtype': 'float64'}})
+        cs.append({'scen': 'tt_dot', 's': {'Na': Na, 'Ra': ra2, 'Nb': Nb, 'Rb': rb1, 'axis': axis, 'dtype': 'float64'}})
+    cs.append({'scen': 'tt_dot', 's': {'Na': [2, 3], 'Ra': [1, 1, 1], 'Nb': [2, 3], 'Rb': [1, 2, 1], 'axis': [0, 1], 'dtype': 'complex128'}})
     cs.append({'scen': 'tt_dot', 's': {'Na': [2, 3, 2], 'Ra': [1, 2, 2, 1], 'Nb': [3], 'Rb': [1, 1], 'axis': [1], 'dtype': 'complex128'}})
     cs.append({'scen': 'tt_dot', 's': {'Na': [2, 3, 2], 'Ra': [1, 2, 2, 1], 'Nb': [2, 2], 'Rb': [1, 2, 1], 'axis': [0, 2], 'dtype': 'complex128'}})
     # ---- sum
@@ -125,7 +142,7 @@ def sig(case, label):
         return 'tt_sum:%s:%s%s:%s' % (kind, how, single, label)
     if sc == 'tt_norm':
         return 'tt_norm:%s:%s:order%s%s:%s' % ('ttm' if 'M' in s else 'tt', 'tracked' if s.get('tracked') else 'untracked',
-                                                 '1' if len(s['N']) == 1 else '>1', ':' + s['history'] if s.get('history') else '', label)
+                                                 '1' if len(s['N']) == 1 else '>1', (':' + s['history'] if s.get('history') else '') + (':plus_zero' if s.get('plus_zero') else ''), label)
     from ..run import default_sig
     return default_sig(case, label)
 
